@@ -4,7 +4,7 @@ PROP = {
             "(unit-test corpus, corner trees, random trees with depth/fan-out/empty files/empty dirs/one-byte files/unicode names, files of several "
             "32 KiB buffers) with independent random read sizes and write segmentations; all subsets of the interesting cut positions and every "
             "single cut for tiny trees; files shrunk/grown between scan and read; explicit entries with odd announced sizes; damaged and hand-made "
-            "writer streams; WHO DECIDES ARCHIVE: roots with zero / exactly one (file, empty file, empty directory) / chained / many entries and sets of several roots with plain files, under protocol 2-5 and overwrite on/off - real scan, archiveSourceFiles, NAME record, sender's and receiver's next step against amo_plan; whole transfers real sendFiles vs real recvFiles in process and a few through the real binaries (destination tree = source tree); every caller buffer is ONE reused array scribbled over between calls (reader: before each Read; writer: after each writeAll), and one write per tree goes through io.CopyBuffer into a bufio.Writer with independent sizes; non-trivial = more than one entry is read, or a write segmentation cuts inside a header or exactly at an entry/header "
+            "writer streams; NAMES: the real checkFileName on every BMP code point (alone, inside a name, after a dot), samples and look-alikes above the BMP, invalid values, against anm_valid; tree names include code points whose low byte / UTF-16 high byte is a separator, dot or NUL; STREAM AS A SOURCE FILE: real sendCompressFlag on archive readers of announced sizes 0..3 MiB (128 KiB +-1) x protocol x compress type x binary against amo_compress, whole transfers of trees whose stream is exactly 127/128/129/200/600 KiB with compress auto/yes/no in process and through the binaries; WHO DECIDES ARCHIVE: roots with zero / exactly one (file, empty file, empty directory) / chained / many entries and sets of several roots with plain files, under protocol 2-5 and overwrite on/off - real scan, archiveSourceFiles, NAME record, sender's and receiver's next step against amo_plan; whole transfers real sendFiles vs real recvFiles in process and a few through the real binaries (destination tree = source tree); every caller buffer is ONE reused array scribbled over between calls (reader: before each Read; writer: after each writeAll), and one write per tree goes through io.CopyBuffer into a bufio.Writer with independent sizes; non-trivial = more than one entry is read, or a write segmentation cuts inside a header or exactly at an entry/header "
             "boundary, or the case belongs to the size/shrink/damaged-stream families; distinct = distinct input line",
     "trusted": ["modelled, not verified: zlib+base64+JSON coding of the header line (abstract hdr/parse with parse(hdr m) = m and no newline in hdr m; "
                 "the harness passes the real header strings as the lookup table), the file system (abstract tree: MkdirAll / O_CREATE|O_TRUNC semantics), "
@@ -20,7 +20,7 @@ PROP = {
 TEXT = {
     "text": "Machine-checked proof over an executable model of archive.go (reader and writer state machines, writeAll loop, createDirOrFile effects on an abstract tree): "
             "announced size = bytes produced; the reader's output is the entry stream for all positive read sizes; the writer rebuilds exactly the tree for every "
-            "segmentation of the stream; a shrunk file is an error; the NAME record's archive flag, the sender's own test and the receiver's createDirOrFile agree for every scan list and root (zero, one, many entries), and every directory root arrives as its tree; at most one descriptor open at any step (writer: after the fix). Tied to the code by regenerated "
+            "segmentation of the stream; a shrunk file is an error; checkFileName refuses a name iff it is empty, a dot, two dots or contains the code point U+002F (any code points); sendCompressFlag never fails on an archive stream and answers compress when the decision is open; the NAME record's archive flag, the sender's own test and the receiver's createDirOrFile agree for every scan list and root (zero, one, many entries), and every directory root arrives as its tree; at most one descriptor open at any step (writer: after the fix). Tied to the code by regenerated "
             "constants and differential execution on real temp-dir trees.",
     "note": "Trusted: Coq kernel, gen translator, extraction, OCaml driver, Go harness. Header coding and the file system are abstract (see trusted).",
     "technique": "Coq proof (byte-at-a-time characterisation of the writer, induction over entries and read sizes) + regenerated constants + extracted-model correspondence + /proc/self/fd sampling",
